@@ -45,3 +45,18 @@ Theorem C11_pass_pay_never_for_live_seat :
   forall s p, p_fold p = false -> p_stack p <> 0 -> offers s p APass = false /\ offers s p APay = false.
 Proof. intros s p H1 H2. split; [exact (offers_pass s p H1 H2)|exact (offers_pay s p H1 H2)]. Qed.
 Print Assumptions C11_pass_pay_never_for_live_seat.
+
+(* in every reachable state where a player is asked to act, the offer he holds is this table
+   evaluated on the current wager to match, minimum raise, minimum bet and his own chips *)
+From PF Require Import ProofsInv ProofsOffers.
+Theorem C11_offer_is_the_table :
+  forall c deck g ops,
+    cfg_ok c -> create c deck = (g, Ok) ->
+    let s := run g ops in
+    st_event (g_st s) = EvRoundStarted ->
+    p_allowed (get_p s (st_cur (g_st s))) = available_actions (g_st s) (get_p s (st_cur (g_st s))).
+Proof.
+  intros c deck g ops Hc Hcr s He. destruct (reachable_inv c deck g ops Hc Hcr) as [_ HO].
+  apply (oi_cur _ HO He).
+Qed.
+Print Assumptions C11_offer_is_the_table.
